@@ -14,7 +14,8 @@ import sys
 import time
 
 VERIF = os.path.dirname(os.path.dirname(os.path.abspath(__file__)))
-LEAN = os.path.join(VERIF, "lean")
+LEAN = os.environ.get("VERIF_LEAN") or os.path.join(VERIF, "lean")          # dev: a scratch copy for mutant runs
+OUT = os.environ.get("VERIF_OUT") or VERIF                                    # dev: where evidence/ and replays/ go
 REPO = os.environ.get("PYP0F_REPO", "/repo")
 DRIVER = os.path.join(LEAN, ".lake", "build", "bin", "p0fdrv")
 STD_AXIOMS = {"propext", "Classical.choice", "Quot.sound"}
@@ -224,11 +225,11 @@ def run_impl(lines, chunk=400):
 # --------------------------------------------------------------------------------------------
 
 def write_replay(prop, payload):
-    os.makedirs(os.path.join(VERIF, "replays"), exist_ok=True)
+    os.makedirs(os.path.join(OUT, "replays"), exist_ok=True)
     blob = json.dumps(payload, sort_keys=True, indent=1)
     h = hashlib.sha1(blob.encode()).hexdigest()[:10]
     path = os.path.join("replays", f"{prop}-{h}.json")
-    open(os.path.join(VERIF, path), "w").write(blob + "\n")
+    open(os.path.join(OUT, path), "w").write(blob + "\n")
     return path
 
 
@@ -244,8 +245,8 @@ def write_evidence(prop, tier, seed, coverage, assumptions, wall, violations):
         "property_id": prop, "tier": tier, "seed": seed, "level": "proof",
         "coverage": coverage, "assumptions": assumptions, "wall_s": round(wall, 2), "violations": violations,
     }
-    os.makedirs(os.path.join(VERIF, "evidence"), exist_ok=True)
-    path = os.path.join(VERIF, "evidence", f"{prop}.json")
+    os.makedirs(os.path.join(OUT, "evidence"), exist_ok=True)
+    path = os.path.join(OUT, "evidence", f"{prop}.json")
     open(path, "w").write(json.dumps(ev, indent=1, default=str) + "\n")
     schema = "/root/.vp/EVIDENCE.schema.json"
     if os.path.exists(schema) and subprocess.run(["which", "python3-vt"], capture_output=True).returncode == 0:
